@@ -97,6 +97,11 @@ def labellings_for(O, mode):
     root = ("g1", "g2", "g3")
     if mode == "same":
         return {v: root for v in range(O.n)}
+    if mode == "repeat":
+        # a family that occurs twice in the root's order (the renderer does not ask for distinct families): children drop the
+        # second copy, so that a child differs from its parent by multiplicity only
+        root2 = ("g1", "g2", "g1")
+        return {v: (root2 if O.parent[v] is None else ("g1", "g2")) for v in range(O.n)}
     if mode == "gluey":
         # multi-character family names whose lists differ but concatenate to the same text ('a'+'bc' = 'ab'+'c'), on
         # different leaves of one drawing; ancestors hold all four
